@@ -1176,3 +1176,46 @@ func deadClosures(fn *ssa.Function) []*ssa.MakeClosure {
 	})
 	return out
 }
+
+// OPEN-WINDOW: a two-index re-slice s[a:b] keeps the capacity of s beyond b. Storing such windows of ONE slab into a
+// container inside a loop hands out slices whose appends run into each other's elements (slab[i:i] then
+// append(window_i, x, y) writes window_{i+1}'s slot). The three-index form s[a:b:c] bounds it.
+func openWindowsStored(fn *ssa.Function) []*ssa.Slice {
+	var out []*ssa.Slice
+	loops := naturalLoops(fn)
+	instrs(fn, func(in ssa.Instruction) {
+		sl, ok := in.(*ssa.Slice)
+		if !ok || sl.Max != nil || sl.Low == nil {
+			return
+		}
+		if _, isSlice := sl.X.Type().Underlying().(*types.Slice); !isSlice {
+			return
+		}
+		if c, isC := sl.Low.(*ssa.Const); isC && c.Value != nil && c.Value.ExactString() == "0" {
+			return
+		}
+		inLoop := false
+		for _, li := range loops {
+			if li.body[sl.Block()] {
+				inLoop = true
+			}
+		}
+		if !inLoop {
+			return
+		}
+		// stored as an element of a slice / map (a container of windows)
+		for _, ref := range *sl.Referrers() {
+			switch x := ref.(type) {
+			case *ssa.Store:
+				if _, ok := x.Addr.(*ssa.IndexAddr); ok && x.Val == ssa.Value(sl) {
+					out = append(out, sl)
+				}
+			case *ssa.MapUpdate:
+				if x.Value == ssa.Value(sl) {
+					out = append(out, sl)
+				}
+			}
+		}
+	})
+	return out
+}
